@@ -39,6 +39,9 @@ class HarnessAbort(BaseException):
     """Exception in harness code; passes through Hypothesis unshrunk."""
 
 
+REPORTED_RULE = (' reported: the deterministic programs under reported/<ID>/ (one per defect report of the second hunt that was kept: the exact input of a listed finding) are run against the tree; exit 0 = the promised behaviour holds for that input.')
+
+
 def frame_sig(exc):
     """(type, innermost frame inside the repository) of a library exception."""
     tb = exc.__traceback__
@@ -564,7 +567,7 @@ def run_check(modname, tier, seed, only_sub=None):
         'coverage': {
             'evaluations': evals + nreplays + len([f for f in _load_findings() if f['property'] == pid]),
             'distinct_nontrivial': len(nontrivial),
-            'rule': mod.RULE,
+            'rule': mod.RULE + (REPORTED_RULE if any(x.name == 'reported' for x in mod.SUBS) else ''),
             'samples': samples[:24],
             'exhaustive': bool(getattr(mod, 'EXHAUSTIVE', False)),
             'per_sub': per_sub,
